@@ -14,6 +14,7 @@ import PygModel.WrapHist
 import PygProofs.Lemmas.WrapHistSharp
 import PygModel.Try
 import PygProofs.Lemmas.WrapHistLemmas
+import PygProofs.Lemmas.Pd2npLemmas
 
 namespace Pyg.Props.C18
 open Pyg
@@ -1550,6 +1551,51 @@ example :
     inDomain s [(.tryBack, []), (.loops, [("types", .list [.cell (.str "list")])])] l12 = false ∧
     inDomain s [(.tryBack, []), (.loops, [("types", .list [.cell (.str "tuple")])])] l12 = true ∧
     inDomain s [(.loops, [("types", .list [.cell (.str "list")])])] { args := [], kw := [("a", .cell (.int 1))] } = true := by
+  decide +kernel
+
+/-! ## round j6 (review v5): what the `pd2np` layer does to a call, through observations
+
+`stack_transparent_sharp` uses `pd2npCall exc c = c` for calls without int ndarray.  The theorems below characterise the layer
+independently of `int2float`'s own equations: it is the identity EXACTLY on the calls that hold no int ndarray, no int ndarray is
+left after it, the number of positional arguments and the keyword names (in order) are kept, a keyword named in `exc` arrives as
+passed and any other keyword arrives `int2float`-ed.  Since repo 33fc9a2 (P8) the CLASS of a container argument is kept as well
+(the code passes the object itself when no member changes; container classes are not in `Val`: sampled by the `~dd / ~d2 / ~l1`
+cells of the harness). -/
+
+/-- no int ndarray among the arguments: the `pd2np` layer forwards the call it received, whatever `exc` is -/
+theorem pd2np_identity_without_int_array (exc : List String) (c : Call) (h : c.hasIntArr = false) :
+    pd2npCall exc c = c := pd2npCall_of_no exc c h
+
+/-- … and only then (no `exc`): the layer changes the call iff some argument holds an int ndarray -/
+theorem pd2np_identity_iff_no_int_array (c : Call) : pd2npCall [] c = c ↔ c.hasIntArr = false :=
+  pd2np_identity_iff c
+
+/-- after the layer no int ndarray is left among the arguments (no `exc`), so applying it twice is applying it once -/
+theorem pd2np_leaves_no_int_array (c : Call) :
+    (pd2npCall [] c).hasIntArr = false ∧ pd2npCall [] (pd2npCall [] c) = pd2npCall [] c := by
+  have h : (pd2npCall [] c).hasIntArr = false := by
+    simp [pd2npCall, Call.hasIntArr, int2floatKw_nil, int2floatList_no_int, int2floatKVs_no_int]
+  exact ⟨h, pd2npCall_of_no [] _ h⟩
+
+/-- the shape of the call is kept: as many positional arguments, the same keyword names in the same order; a keyword named in
+`exc` arrives as passed, any other one converted -/
+theorem pd2np_keeps_shape (exc : List String) (c : Call) :
+    (pd2npCall exc c).args.length = c.args.length ∧ (pd2npCall exc c).kw.map Prod.fst = c.kw.map Prod.fst ∧
+    (∀ k, k ∈ exc → (pd2npCall exc c).kw.lookup k = c.kw.lookup k) ∧
+    (∀ k, k ∉ exc → (pd2npCall exc c).kw.lookup k = (c.kw.lookup k).map int2float) := by
+  refine ⟨int2floatList_length _, int2floatKw_keys exc _, ?_, ?_⟩
+  · intro k hk
+    simp [pd2npCall, int2floatKw_lookup, hk]
+  · intro k hk
+    simp [pd2npCall, int2floatKw_lookup, hk]
+
+/-- a value is left as it is exactly when it holds no int ndarray (any depth of list / tuple / dict) -/
+theorem int2float_identity_iff (v : Val) : int2float v = v ↔ v.hasIntArr = false := int2float_eq_self_iff v
+
+example :
+    let c : Call := { args := [.list [.cell (.str "~arr:1,2"), .cell (.int 3)]], kw := [("b", .cell (.str "~arr:4")), ("c", .cell (.str "~arr:f:5"))] }
+    (pd2npCall ["b"] c).args = [.list [.cell (.str "~arr:f:1,2"), .cell (.int 3)]] ∧ (pd2npCall ["b"] c).kw = c.kw ∧
+    c.hasIntArr = true ∧ (pd2npCall [] c).hasIntArr = false := by
   decide +kernel
 
 end Pyg.Props.C18
